@@ -536,7 +536,9 @@ func (s *snapshot) persistIndex(sink raft.SnapshotSink, encoder *codec.Encoder) 
 		idx := raw.(*state.IndexEntry)
 
 		// Write out a node registration
-		sink.Write([]byte{byte(structs.IndexRequestType)})
+		if _, err := sink.Write([]byte{byte(structs.IndexRequestType)}); err != nil {
+			return err
+		}
 		if err := encoder.Encode(idx); err != nil {
 			return err
 		}
